@@ -234,6 +234,12 @@ func (d *dialer) Dial() (transport.Pipe, error) {
 		}
 		return nil, err
 	}
+	// The server must confirm the SP subprotocol we offered; one that
+	// selects none, or something else, is not a peer of our protocol.
+	if w.ws.Subprotocol() != wd.Subprotocols[0] {
+		_ = w.ws.Close()
+		return nil, mangos.ErrBadProto
+	}
 	w.ws.SetReadLimit(int64(maxrx))
 	w.options[mangos.OptionLocalAddr] = w.ws.LocalAddr()
 	w.options[mangos.OptionRemoteAddr] = w.ws.RemoteAddr()
